@@ -44,7 +44,7 @@ void harness(void)
     __CPROVER_assert(vt.write_callback == NULL && vt.execute_callback == NULL && vt.signal_callback == NULL, "no callbacks yet");
     __CPROVER_assert(vt.rl.line.buf == buf && vt.rl.line.cap == cap && vt.rl.line.len == 0 && vt.rl.line.cursor == 0, "empty line over the given buffer");
     __CPROVER_assert(vt.rl.state == 0 && vt.rl.last == 0 && vt.rl.headhist == 0 && vt.rl.curhist == 0 && vt.rl.history_space == hist, "phase 0, no pairing memory, head = browse = 0, history space recorded");
-    __CPROVER_assert(vt.rl.history_size == hsize && vt.rl.history_size >= 1, "history depth recorded as given");
+    __CPROVER_assert((vt.rl.history_size == hsize || (hsize > 255 && vt.rl.history_size == 255)) && vt.rl.history_size >= 1, "history depth recorded as given, or the largest depth the uint8_t indices can address");
     __CPROVER_assert(hist[off] == 0, "every byte of every history entry is NUL (ghost slot, ghost index)");
     __CPROVER_assert(buf[k] == old_k, "line buffer content untouched");
     char cw, cx, cs;
